@@ -343,6 +343,8 @@ class Interp:
         self.sym = None               # optional sa.symbuf.SymExt: symbolic byte buffers / linear integers
         self.loop_unroll = 1          # while loops: number of iterations executed (1 = one generic iteration)
         self.maybe_falsy = None       # predicate on opaque values whose truthiness is not known (scenario scalars)
+        self.honest_numeric = False   # int(x) / float(x) of an input value used as a test: the value zero is explored as well
+        self.zero_tests = {}          # key of such a test -> the value tested
         self.on_write = None          # optional write barrier: on_write(kind, target value, detail, ast node, value written) for every store
                                       # into an object field / element and every mutating call on a container
         self.max_steps = MAX_STEPS
@@ -456,6 +458,11 @@ class Interp:
                 return t
         if k == "c":
             return bool(v[1])
+        if self.honest_numeric and k == "fn" and v[1] in ("int", "float") and any(isinstance(d, tuple) and d and d[0] == "A" for d in deps_of(v)):
+            # a number parsed from the input: zero is a value like any other ("0" is present, and falsy once converted)
+            key = "numeric-zero:" + show(v)[:80]
+            self.zero_tests[key] = v
+            return not self.ask(("F", key))
         if k == "ext" and self.maybe_falsy is not None and self.maybe_falsy(v):
             # a scenario value standing for any value of its type, 0 / '' / b'' included
             return self.free("truth(%s)" % v[1])
